@@ -18,6 +18,8 @@ pub(crate) mod row_buffer;
 pub(crate) mod table;
 
 pub(crate) mod table_spec;
+#[cfg(egglog_verif)]
+pub mod verif_hooks;
 pub(crate) mod uf;
 
 #[cfg(test)]
